@@ -39,10 +39,19 @@ def pv(v):
     raise ValueError(k)
 
 
-def realize(a, resolvers=None, extra=None):
-    """Code-built schema (so that invalid schemas can exist).  resolvers: optional {(type, field): callable}."""
+def realize(a, resolvers=None, extra=None, subclassed=False):
+    """Code-built schema (so that invalid schemas can exist).  resolvers: optional {(type, field): callable}.
+    subclassed=True: every type is an instance of a (behaviour-less) SUBCLASS of the library's type class, the documented way of
+    attaching application data or behaviour to types; nothing the library does with a schema may depend on the exact class."""
     from py_gql.schema import (ID, Argument, Boolean, Directive, EnumType, EnumValue, Field, Float, InputField, InputObjectType, Int,
                                InterfaceType, ListType, NonNullType, ObjectType, ScalarType, Schema, String, UnionType)
+    if subclassed:
+        ScalarType = type("AppScalarType", (ScalarType,), {})
+        EnumType = type("AppEnumType", (EnumType,), {})
+        InputObjectType = type("AppInputObjectType", (InputObjectType,), {})
+        ObjectType = type("AppObjectType", (ObjectType,), {})
+        InterfaceType = type("AppInterfaceType", (InterfaceType,), {})
+        UnionType = type("AppUnionType", (UnionType,), {})
     builtin = {"Int": Int, "Float": Float, "String": String, "Boolean": Boolean, "ID": ID}
     reg = {}
     resolvers = resolvers or {}
